@@ -82,7 +82,7 @@ def run(ck):
             n += 1
             conv = [c for c in p.calls() if c[1] in CONVERTERS]
             if not conv: why.append('TLD pipeline without a conversion'); continue
-            out = conv_output(conv[0])
+            out = conv_output(conv[-1])          # the conversion whose output is used (a retry makes a second call)
             why += pipeline_problems(p, out, f'({out} + strlen#1)', lambda q: q.ret()[1])
         if n < 3: why.append(f'only {n} paths pass the tld_check gate')
         r4.instance(f'{key}:is_utf8_domain', ok=not why, wclass='pipeline', what='; '.join(sorted(set(why))))
